@@ -60,7 +60,7 @@ fn c03_spec() -> CheckSpec {
             ScenarioPlan { scenario: Box::new(c03::C03Enumerate), quick_runs: 320, thorough_runs: 3_000 },
             ScenarioPlan { scenario: Box::new(c03::C03RandomFaults), quick_runs: 30_000, thorough_runs: 1_500_000 },
             ScenarioPlan { scenario: Box::new(c03::C03IncludeTrees), quick_runs: 5_000, thorough_runs: 250_000 },
-            ScenarioPlan { scenario: Box::new(c03::C03TokenSoups), quick_runs: 60_000, thorough_runs: 3_000_000 },
+            ScenarioPlan { scenario: Box::new(c03::C03TokenSoups), quick_runs: 150_000, thorough_runs: 5_000_000 },
         ],
     }
 }
